@@ -4,6 +4,7 @@ Decided by: SynthGraph.tla (programs, Z_p denotation, server opcode table, class
 SynthGraphGen.tla (design model + enumeration of programs per vocabulary slice), TraceSynthGraph.tla
 (validation of every recorded build).  S->C: TLC enumerates / simulates programs, the driver builds each one
 with the real constructors and operators.  C->S: the decoded bytes + certificate go back to TLC."""
+import json
 import random
 import re
 from concurrent.futures import ThreadPoolExecutor
@@ -11,7 +12,7 @@ from concurrent.futures import ThreadPoolExecutor
 from harness import synthprog as sp
 from harness.common import MachineryError
 
-ALL_ACTIONS = ('AddUn', 'AddBin', 'AddMAdd', 'AddSum', 'AddGen', 'Finish')
+ALL_ACTIONS = ('AddUn', 'AddBin', 'AddMAdd', 'AddSum', 'AddGen', 'Finish')      # (Finish2: slice twoS, checked by count)
 
 
 def signature(why, rec):
@@ -51,7 +52,6 @@ def judge(ctx, recs, origin):
 def run(ctx):
     thorough = not ctx.quick
     group = 'thorough' if thorough else 'quick'
-    nsim = 3000 if thorough else 200
     jobs = [
         # 1. design model with the vacuity guard: every generator action taken, reference compilation accepted,
         #    a dropped side-effecting unit rejected (invariants NaiveOK / DropDetected of SynthGraphGen.tla)
@@ -62,20 +62,32 @@ def run(ctx):
                                 module='SynthOpt', label='optimiser model: every rewrite preserves the denotation'),
         # 2. S->C: every program of every slice of the tier (same invariants checked on all of them)
         lambda: sp.tlc_programs(ctx, group, timeout=3000, workers=10, label='all programs of group ' + group),
-        # 3. longer programs: random walks of the generator over the big vocabulary
-        lambda: sp.tlc_programs(ctx, 'long', simulate='num=%d' % nsim, depth=30, seed=ctx.seed + 7, timeout=1500,
-                                label='simulated long programs'),
     ]
-    jobs.append(lambda: sp.tlc_programs(ctx, 'sampled', simulate='num=%d' % (6000 if thorough else 300), depth=10,
-                                        seed=ctx.seed + 8, timeout=1500, label='random walks of the big slices'))
+    # 3. longer programs and the slices too big to enumerate: random walks of the same generator (several seeds)
+    nlong = 4 if thorough else 1
+    for k in range(nlong):
+        jobs.append(lambda k=k: sp.tlc_programs(ctx, 'long', simulate='num=%d' % (900 if thorough else 200), depth=30,
+                                                seed=ctx.seed + 70 + k, timeout=1500, label='simulated long programs %d' % k,
+                                                tag='l%d' % k))
+    for k in range(3 if thorough else 1):
+        jobs.append(lambda k=k: sp.tlc_programs(ctx, 'sampled', simulate='num=%d' % (8000 if thorough else 300), depth=10,
+                                                seed=ctx.seed + 80 + k, timeout=1500,
+                                                label='random walks of the big slices %d' % k, tag='s%d' % k))
     with ThreadPoolExecutor(max_workers=len(jobs)) as ex:
         res = [f.result() for f in [ex.submit(j) for j in jobs]]
     progs = list(res[2])
     nexh = len(progs)
-    longp = res[3]
+    if not any(p['name'] == 'twoS' for p in progs):
+        raise MachineryError('vacuity: no program with two output units (Finish2) was generated')
+    seen = set(json.dumps(p, sort_keys=True) for p in progs)
+    longp = []
+    for extra in res[3:]:
+        for p in extra:
+            k = json.dumps(p, sort_keys=True)
+            if k not in seen:
+                seen.add(k)
+                longp.append(p)
     progs += longp
-    for extra in res[4:]:
-        progs += extra
     per_slice = {}
     for i, p in enumerate(progs):
         per_slice[p['name']] = per_slice.get(p['name'], 0) + 1
